@@ -57,6 +57,19 @@ def _atom(e: ast.expr) -> str:
     return canon(e)
 
 
+_NEG_OP = {ast.Eq: ast.NotEq, ast.NotEq: ast.Eq, ast.Lt: ast.GtE, ast.GtE: ast.Lt, ast.Gt: ast.LtE, ast.LtE: ast.Gt, ast.Is: ast.IsNot, ast.IsNot: ast.Is, ast.In: ast.NotIn, ast.NotIn: ast.In}
+
+
+def _negated(x: ast.expr) -> ast.expr:
+    if isinstance(x, ast.UnaryOp) and isinstance(x.op, ast.Not):
+        return x.operand
+    if isinstance(x, ast.Compare) and len(x.ops) == 1 and type(x.ops[0]) in _NEG_OP:
+        return ast.Compare(left=x.left, ops=[_NEG_OP[type(x.ops[0])]()], comparators=x.comparators)
+    if isinstance(x, ast.BoolOp):
+        return ast.BoolOp(op=ast.Or() if isinstance(x.op, ast.And) else ast.And(), values=[_negated(v) for v in x.values])
+    return ast.UnaryOp(op=ast.Not(), operand=x)
+
+
 def _hoist_ifexp(e: ast.expr) -> ast.expr | None:
     """`a - (d if c else 0)` == `(a - d) if c else a`: a conditional term of a sum is hoisted to the
     top so that both spellings have one normal form."""
@@ -121,6 +134,9 @@ def canon(e: ast.expr) -> str:
                 test, body, orelse, flipped = ast.Compare(left=test.left, ops=[pos], comparators=test.comparators), orelse, body, True
             elif isinstance(test, ast.Compare) and len(test.ops) == 1 and isinstance(test.ops[0], ast.Eq) and isinstance(test.comparators[0], ast.Constant) and test.comparators[0].value == 0 and isinstance(test.left, ast.BinOp) and isinstance(test.left.op, ast.Mod):
                 test, body, orelse, flipped = test.left, orelse, body, True  # `i % 2 == 0` is `not i % 2`
+            elif isinstance(test, ast.BoolOp) and isinstance(test.op, ast.Or):
+                # De Morgan: a disjunctive test is stated as the conjunction of the negations
+                test, body, orelse, flipped = ast.BoolOp(op=ast.And(), values=[_negated(x) for x in test.values]), orelse, body, True
         return f"({canon(body)} if {canon(test)} else {canon(orelse)})"
     if isinstance(e, ast.Compare) and len(e.ops) == 1:
         from ..norm import facts
